@@ -28,6 +28,9 @@ def gen(rnd, tier):
             e = ("x10", rnd.randrange(224), cx, cy)
             tail = rnd.choice([[97], [113], D.encode(("x10", 0, 5, 5)), [27, 91, 65]])
             dcases.append({"b": D.encode(e) + tail, "more": False, "tag": "x10-grid"})
+            # ... and as a stream with a neighbour, so that the Spec is evaluated on the real decoding too
+            nxt = rnd.choice([("runes", [113]), ("x10", 0, 5, 5), ("key", 0, False), ("ctl", 13, False)])
+            cases.append(D.stream_case([e, nxt], tag="x10-grid"))
     # huge codes / coordinates (saturation, never a panic)
     for code, x, y in [(2 ** 63, 1, 1), (10 ** 30, 10 ** 30, 10 ** 30), (256 + 35, 2 ** 64 + 5, 7), (0, 2 ** 63, 2 ** 63 - 1)]:
         dcases.append({"b": D.encode(("sgr", code, x, y, False)), "more": False, "tag": "sgr-huge"})
